@@ -81,7 +81,7 @@ def plan(tier, seed):
 def floors(tier):
     return {'evaluations': 20000, 'distinct_nontrivial': 5000, 'lookups_checked': 500000,
             'parent_snapshots_rechecked': 20000, 'frozen_refusals': 1000, 'derived_from_derived': 500,
-            'histkeys:placement': 7}
+            'histkeys:placement': 7, 'filtered_contents_compared': 5000}
 
 
 def setup(rec):
@@ -287,6 +287,20 @@ def run_history(ops, rec, targets):
                                        ('s', 'specials', ndb.iter_specials_specs)):
                     if which not in keep and list(it()):
                         return 'step %d: filtered_context(keep_which=%r) kept %s' % (step, keep, which)
+            # ... and all of the requested kinds (every kind without keep_which), category by category, as the parent has them
+            for knd, which in (('m', 'macros'), ('e', 'environments'), ('s', 'specials')):
+                if keep and which not in keep:
+                    continue
+                attr = {'m': 'macroname', 'e': 'environmentname', 's': 'specials_chars'}[knd]
+                for c in order:
+                    pit = {'m': db.iter_macro_specs, 'e': db.iter_environment_specs, 's': db.iter_specials_specs}[knd]
+                    nit = {'m': ndb.iter_macro_specs, 'e': ndb.iter_environment_specs, 's': ndb.iter_specials_specs}[knd]
+                    want = sorted((getattr(sp, attr), getattr(sp, '_vpl_tag', None)) for sp in pit(categories=[c]))
+                    got = sorted((getattr(sp, attr), getattr(sp, '_vpl_tag', None)) for sp in nit(categories=[c]))
+                    rec.monitor('filtered_contents_compared')
+                    if want != got:
+                        return 'step %d: filtered_context(%r): category %r holds %s %r in the result, %r in the source' % (
+                            step, kw, c, which, got, want)
             hs.append(nh)
             affected = None
             derived = True
